@@ -975,6 +975,48 @@ class Statics:
                 self.obs[-1]["props"] = list(props)
 
 
+    def c17(self):
+        """previous_path is recorded only under a digest match: every store to .previous_path in the rename region of create is
+        guarded (enclosing if-tests, conjunctively) by an equality between the digest recorded for the missing path and a digest
+        of the new path"""
+        pid = "C17"
+        q = "ascmhl.commands.create_for_folder_subcommand"
+        fi = self.repo.funcs.get(q)
+        if fi is None:
+            self.ob(pid, q, "exists", False, "not found", unknown=True, kind="guard")
+            return
+        stores = []
+
+        def walk(node, guards):
+            for field, val in ast.iter_fields(node):
+                kids = val if isinstance(val, list) else [val]
+                for ch in kids:
+                    if not isinstance(ch, ast.AST):
+                        continue
+                    g = guards
+                    if isinstance(node, ast.If) and field == "body":
+                        g = guards + [node.test]
+                    if isinstance(ch, ast.Attribute) and ch.attr == "previous_path" and isinstance(ch.ctx, ast.Store):
+                        stores.append((ch, g))
+                    walk(ch, g)
+
+        walk(fi.node, [])
+        self.ob(pid, q, "rename-region-records-previous-paths", bool(stores), "no store to previous_path found in create_for_folder_subcommand", fi.node.lineno,
+                kind="guard", unknown=not stores)
+        for k, (st, guards) in enumerate(stores):
+            eqs = [c for t in guards for c in ast.walk(t) if isinstance(c, ast.Compare) and len(c.ops) == 1 and isinstance(c.ops[0], ast.Eq)]
+            match = [c for c in eqs if ast.unparse(c.left).endswith("hash_string") or ast.unparse(c.comparators[0]).endswith("hash_string")]
+            both = [c for c in match if "not_found" in ast.unparse(c) and "new_path" in ast.unparse(c)]
+            calls = [c for t in guards for c in ast.walk(t) if isinstance(c, ast.Call)
+                     and not ast.unparse(c.func).startswith(("os.", "len", "isinstance", "hasattr", "str", "bool"))]
+            mentions = any("hash_string" in ast.unparse(t) for t in guards)
+            ok = bool(both)
+            # a digest comparison behind a helper call or under other names cannot be recognised syntactically: undecided, not a violation
+            unknown = not ok and (bool(calls) or mentions or bool(match))
+            self.ob(pid, q, f"previous-path-only-under-digest-match#{k}", ok,
+                    f"store to previous_path at line {st.lineno} is not guarded by an equality between the recorded digest of the missing path and a digest of the new path "
+                    f"(guards: {[ast.unparse(t)[:80] for t in guards]})", st.lineno, kind="guard", unknown=unknown)
+
     def c06(self):
         pid = "C06"
         q = "ascmhl.utils.datetime_now_filename_string"
@@ -1013,6 +1055,8 @@ def run(pid, tier, repo_root=None):
         s.c06()
     elif pid == "C16":
         s.c06()
+    if pid == "C17":
+        s.c17()
     if pid in ("C02", "C04", "C06", "C07", "C08", "C12", "C16", "C17", "C18", "C19"):
         s.heap_frames(pid)
     return [o for o in s.obs if pid in o["props"]]
